@@ -148,6 +148,8 @@ let () =
   (* links that chess dictates for the nodes touched by the current operation (from the harness'
      own move generation): (parent, move, child); checked against the C++ state, not the model *)
   let expect_links : (n * n * n) list ref = ref [] in
+  let reload_check = ref false in
+  let reloads = ref 0 in
   let apply o = model := apply_op requeue !bd !model o in
   (try
      while true do
@@ -200,6 +202,10 @@ let () =
             let addrs = List.init na (fun _ -> let h = next_n c in let a = next_n c in (h, a)) in
             let ns = next_int c in
             let succ = List.init ns (fun _ -> let h = next_n c in let k = next_int c in (h, pairs_mh c k)) in
+            (* complete files (every node has a record) with no search pending: the reloaded state must
+               equal the saved one on every per-node value (C19_reload_reproduces) *)
+            let nprev = match !prev with Some p -> List.length p.bk_keys | None -> 0 in
+            reload_check := (!pending = [] && na = nprev && List.length recs >= na);
             pending := [];
             (* complete files only: every successor link between two nodes of the file must exist *)
             if List.length recs = na then
@@ -217,6 +223,22 @@ let () =
             let base = match !prev with Some p when !opname <> "NEW" -> p | _ -> empty_book !root in
             let cpp = update_state base !root !pending lines removed in
             if List.length cpp.bk_keys <> n then flags := "dump-count-mismatch" :: !flags;
+            if !reload_check then begin
+              reload_check := false; incr reloads;
+              (match !prev with
+               | Some p ->
+                 (* the harness repeats only nodes whose text changed: after a faithful reload nothing is repeated *)
+                 if k <> 0 || x <> 0 then begin
+                   let same h =
+                     has_node p h && depth p h = depth cpp h && score_of p h = score_of cpp h &&
+                     (info p h).ni_move = (info cpp h).ni_move && (info p h).ni_score = (info cpp h).ni_score &&
+                     (info p h).ni_time = (info cpp h).ni_time &&
+                     children p h = children cpp h &&
+                     List.sort cmp_pair (parents p h) = List.sort cmp_pair (parents cpp h) in
+                   if not (List.for_all same cpp.bk_keys) then flags := "reload-differs-from-saved" :: !flags
+                 end
+               | None -> ())
+            end;
             let m = if !model.bk_err <> N0 then Some ("modelerr=" ^ string_of_n !model.bk_err) else compare_states !model cpp in
             let missing = List.filter (fun (p, m, ch) ->
                 not (List.exists (fun (m', c') -> m' = m && c' = ch) (children cpp p) &&
@@ -265,5 +287,5 @@ let () =
          | (_, p) :: r -> List.exists (fun (_, q) -> depth g q <> depth g p) r) g.bk_keys) in
      let maxd = List.fold_left (fun a h -> let d = int_of_z (depth g h) in if d < 1000000 && d > a then d else a) 0 g.bk_keys in
      let mates = List.length (List.filter (fun h -> abs (int_of_z (score_of g h).s_nm) > 16000 && abs (int_of_z (score_of g h).s_nm) <= 32000) g.bk_keys) in
-     Printf.printf "FIN nodes=%d multiparent=%d multidepth=%d maxdepth=%d matenodes=%d acyclic=%d eqfail=%d\n"
-       (List.length g.bk_keys) multi multidepth maxd mates (if acyclic_check g then 1 else 0) !tot_fail)
+     Printf.printf "FIN nodes=%d multiparent=%d multidepth=%d maxdepth=%d matenodes=%d acyclic=%d eqfail=%d reloads=%d\n"
+       (List.length g.bk_keys) multi multidepth maxd mates (if acyclic_check g then 1 else 0) !tot_fail !reloads)
